@@ -170,8 +170,9 @@ def rownum(run, p):
     nums += [c for c, ts, _k in p.calls(f) if isinstance(c, ast.Call) and any(g.cls is f.cls and g is not f and numbers_rows(g) for g, _ctx in ts)]
     filters = []
     for s in ast.walk(f.node):
-        if isinstance(s, ast.Assign) and any(isinstance(x, ast.Subscript) and isinstance(x.slice, ast.Compare) and 'nfailname' in names_in(x.slice)
-                                             for x in ast.walk(s.value)):
+        # a row filter: frame[frame[<failure count column>] > 0], wherever it is used (assigned, passed on, returned)
+        if isinstance(s, ast.Subscript) and isinstance(s.slice, ast.Compare) and isinstance(s.slice.left, ast.Subscript) and \
+                isinstance(s.slice.ops[0], (ast.Gt, ast.GtE, ast.NotEq, ast.Lt, ast.Eq)):
             filters.append(s)
     if not nums or not filters:
         raise AnalysisError('write_detected_records: row numbering or row filter not found')
